@@ -124,6 +124,9 @@ func (m *ModuleCors) setRespHeaderForPreflght(request *bfe_basic.Request, rspHea
 	allow, matchedOrigin := matchOriginAllowed(origin, rule)
 	if !allow {
 		m.state.ReqNotAllowOriginHit.Inc(1)
+
+		// response without cors header also depends on the value of Origin
+		addVaryHeader(rspHeader)
 		return
 	}
 	m.state.ReqAllowOriginHit.Inc(1)
@@ -155,6 +158,9 @@ func (m *ModuleCors) setRespHeaderForNonPreflight(request *bfe_basic.Request, rs
 	allow, matchedOrigin := matchOriginAllowed(origin, rule)
 	if !allow {
 		m.state.ReqNotAllowOriginHit.Inc(1)
+
+		// response without cors header also depends on the value of Origin
+		addVaryHeader(rspHeader)
 		return
 	}
 	m.state.ReqAllowOriginHit.Inc(1)
